@@ -1,6 +1,6 @@
 SPECIFICATION Spec
 CONSTANTS
-  StrClasses = {"blank", "plain", "markup", "ws", "tricky"}
+  StrClasses = {"srclit", "blank", "plain", "markup", "ws", "tricky"}
   HoursSet = {"-5", "0", "1", "24"}
 INVARIANTS InvShape InvMeta Emit
 PROPERTIES Terminates
